@@ -6,6 +6,13 @@ from . import impl
 
 
 def main():
+    # a runaway loop in the code under test must not take the machine down: 12 GB of address space, 15 min of CPU
+    try:
+        import resource
+        resource.setrlimit(resource.RLIMIT_AS, (12 * 2 ** 30, 12 * 2 ** 30))
+        resource.setrlimit(resource.RLIMIT_CPU, (900, 960))
+    except (ImportError, ValueError, OSError):
+        pass
     job = json.load(sys.stdin)
     fn = getattr(impl, job["fn"])
     out = []
